@@ -12,8 +12,8 @@ ID = "C14"
 LEVEL = "exploration"
 DESIGN_REF = "DESIGN.md §3 C14"
 RULE = (
-    "Hypothesis universes over worlds (<= 6 vertices, <= 10 links of 6 classes: self-loops, parallel and mixed "
-    "edges, edge and vertex subclasses, isolated members, links leaving the universe) x option tables: '$id' or "
+    "Hypothesis universes over worlds (<= 6 vertices, <= 10 links of 7 classes: self-loops, parallel and mixed "
+    "edges, edge and vertex subclasses incl. multiply-inheriting ones whose configured ancestor is only on the MRO (not on the first-base chain), isolated members, links leaving the universe) x option tables: '$id' or "
     "format titles, show_attrs lists, vertex type object/class, per-class arrow ends from PlantUML tokens, "
     "entries for a subclass and/or only its base (MRO resolution), a TwoEndedLink entry so unknown-class links are "
     "renderable, user_render_func variant.  Parse-back oracle: first line @startuml, last @enduml; the multiset "
